@@ -97,6 +97,13 @@ TEXT["C10"] = {
     "design_ref": "DESIGN.md section 3, C10",
 }
 
+TEXT["C12"] = {
+    "technique": "property-based testing (rapid); differential against a reference environment (scope) model, plus deep before/after comparison of caller data",
+    "text": "Generated nestings of with / for / macro / set / if / include over four deliberately colliding names, with a probe {{ name }} after every construct and inside every body and the same names present in Context and Globals, are rendered and compared with an independent reference interpreter that implements the scoping rules of the property. After every execution the caller's Context and the set's Globals are compared (reflect.DeepEqual, nested maps and slices included) with freshly built copies. Malformed keys and keys clashing with an exported macro must be rejected by every entry point without output.",
+    "note": "Trusted: the reference interpreter in harness/props/mm_test.go and the value builder. Mutation of values reachable only through functions or pointers is not observed.",
+    "design_ref": "DESIGN.md section 3, C12",
+}
+
 PENDING_REASON = "check not built yet in this build phase (DESIGN.md section 3 describes the planned PBT check); will be claimed once its quick tier is silent on the unchanged tree and kills its mutants"
 
 
